@@ -12,6 +12,6 @@ package types
 //@   modifies *
 //@   nopanic
 //@   ensures #c15-atomic: err != nil ==> unchanged()
-//@   ensures #c15-commit: err == nil ==> sameworld(ctx, cacheCtx)
+//@   ensures internal #c15-commit: err == nil ==> sameworld(ctx, cacheCtx)
 //@   cover #c15-failure-path: err != nil
 //@   cover #c15-success-path: err == nil
